@@ -895,9 +895,13 @@ var lstToISO = map[fontLanguageOverride]string{
 
 // isLanguageTag returns true if [s] has the general shape of a BCP 47 language tag:
 // a primary subtag of 2 to 8 letters, followed by subtags of 1 to 8 letters or digits,
-// separated by '-'.
+// separated by '-'. A single-character subtag (a singleton) introduces an extension and
+// must be followed by a longer subtag, except after the private use singleton 'x'
+// (the shaper indexes past the end of a tag ending with a singleton, like "fr-0").
 func isLanguageTag(s string) bool {
 	start := 0
+	private := false        // inside the private use part ("-x-...")
+	afterSingleton := false // the previous subtag was a singleton
 	for i := 0; i <= len(s); i++ {
 		if i < len(s) && s[i] != '-' {
 			c := s[i]
@@ -909,10 +913,22 @@ func isLanguageTag(s string) bool {
 			continue
 		}
 		// end of a subtag (a single letter primary subtag is not a language)
-		if L := i - start; L < 1 || L > 8 || (start == 0 && L < 2) {
+		L := i - start
+		if L < 1 || L > 8 || (start == 0 && L < 2) {
 			return false
+		}
+		if private {
+			afterSingleton = false
+		} else if L == 1 {
+			if afterSingleton {
+				return false
+			}
+			afterSingleton = true
+			private = s[start] == 'x' || s[start] == 'X'
+		} else {
+			afterSingleton = false
 		}
 		start = i + 1
 	}
-	return true
+	return !afterSingleton
 }
